@@ -37,7 +37,7 @@ const KEY: u64 = 0x1414_7a9a;
 // =======================================================================================
 // own varint / TLV encoder + reference parser (RFC 9000 §16, §18 figures 20/21)
 
-fn min_width(v: u64) -> usize {
+pub fn min_width(v: u64) -> usize {
     if v < 1 << 6 {
         1
     } else if v < 1 << 14 {
@@ -52,7 +52,7 @@ fn min_width(v: u64) -> usize {
 /// RFC 9000 §16: "The QUIC variable-length integer encoding reserves the two most significant
 /// bits of the first byte to encode the base-2 logarithm of the integer encoding length in bytes.
 /// The integer value is encoded on the remaining bits, in network byte order."
-fn put_varint(out: &mut Vec<u8>, v: u64, width: usize) {
+pub fn put_varint(out: &mut Vec<u8>, v: u64, width: usize) {
     assert!(v <= VMAX && width >= min_width(v), "harness: {v} does not fit {width} bytes");
     match width {
         1 => out.push(v as u8),
@@ -64,7 +64,7 @@ fn put_varint(out: &mut Vec<u8>, v: u64, width: usize) {
 }
 
 /// value and encoded width of the varint at the start of `b`
-fn get_varint(b: &[u8]) -> Option<(u64, usize)> {
+pub fn get_varint(b: &[u8]) -> Option<(u64, usize)> {
     let first = *b.first()?;
     let width = 1usize << (first >> 6);
     if b.len() < width {
@@ -79,7 +79,7 @@ fn get_varint(b: &[u8]) -> Option<(u64, usize)> {
 
 /// RFC 9000 §18: "Transport Parameter { Transport Parameter ID (i), Transport Parameter Length (i),
 /// Transport Parameter Value (..) }" repeated until the end of the extension.
-fn ref_parse(mut b: &[u8]) -> Result<Vec<(u64, &[u8])>, &'static str> {
+pub fn ref_parse(mut b: &[u8]) -> Result<Vec<(u64, &[u8])>, &'static str> {
     let mut out = vec![];
     while !b.is_empty() {
         let (id, w) = get_varint(b).ok_or("truncated parameter id")?;
@@ -99,7 +99,7 @@ fn ref_parse(mut b: &[u8]) -> Result<Vec<(u64, &[u8])>, &'static str> {
 // the RFC table (trusted base)
 
 #[derive(Clone, Copy, Debug, PartialEq, Eq)]
-enum Kind {
+pub enum Kind {
     /// §18.2: "Those transport parameters that are identified as integers use a variable-length
     /// integer encoding" — the value is exactly one varint (any width, §16: "Values do not need
     /// to be encoded on the minimum number of bytes necessary"), valid iff min <= v <= max.
@@ -119,25 +119,25 @@ enum Kind {
     PreferredAddress,
 }
 
-struct Row {
-    id: u64,
-    name: &'static str,
-    kind: Kind,
+pub struct Row {
+    pub id: u64,
+    pub name: &'static str,
+    pub kind: Kind,
     /// §18.2: "Transport parameters have a default value of 0 if the transport parameter is
     /// absent, unless otherwise stated."
-    default: u64,
+    pub default: u64,
     /// §18.2: "A client MUST NOT include any server-only transport parameter:
     /// original_destination_connection_id, preferred_address, retry_source_connection_id, or
     /// stateless_reset_token. A server MUST treat receipt of any of these transport parameters as
     /// a connection error of type TRANSPORT_PARAMETER_ERROR."
-    server_only: bool,
+    pub server_only: bool,
 }
 
 const fn int(min: u64, max: u64) -> Kind {
     Kind::Int { min, max, latitude_above: None }
 }
 
-const TABLE: &[Row] = &[
+pub const TABLE: &[Row] = &[
     // "original_destination_connection_id (0x00): This parameter is the value of the Destination
     // Connection ID field from the first Initial packet sent by the client ... This transport
     // parameter is only sent by a server." §7.2: "This Destination Connection ID MUST be at least
@@ -206,14 +206,14 @@ const TABLE: &[Row] = &[
     Row { id: 0x20, name: "max_datagram_frame_size", kind: int(0, VMAX), default: 0, server_only: false },
 ];
 
-fn row(id: u64) -> Option<&'static Row> {
+pub fn row(id: u64) -> Option<&'static Row> {
     TABLE.iter().find(|r| r.id == id)
 }
 
 /// ids this check must never generate as "unknown": the table's, and s2n's private extension
 /// range (`DcSupportedVersions` 0xdc0000, `MtuProbingCompleteSupport` 0xdc0002; the whole
 /// 0xdc00xx block is avoided)
-fn reserved_id(id: u64) -> bool {
+pub fn reserved_id(id: u64) -> bool {
     row(id).is_some() || (0xdc0000..=0xdc00ff).contains(&id)
 }
 
@@ -232,53 +232,53 @@ fn sanitize_unknown_id(id: u64) -> u64 {
 }
 
 #[derive(Clone, Debug, PartialEq, Eq)]
-struct Pref {
-    v4: Option<([u8; 4], u16)>,
-    v6: Option<([u8; 16], u16)>,
-    cid: Vec<u8>,
-    token: [u8; 16],
+pub struct Pref {
+    pub v4: Option<([u8; 4], u16)>,
+    pub v6: Option<([u8; 16], u16)>,
+    pub cid: Vec<u8>,
+    pub token: [u8; 16],
 }
 
 /// `value(block)`: what the block declares, RFC defaults for absent parameters
 #[derive(Clone, Debug, Default)]
-struct Values {
-    ints: BTreeMap<u64, u64>,
-    disable_active_migration: bool,
-    cids: BTreeMap<u64, Vec<u8>>,
-    token: Option<Vec<u8>>,
-    pref: Option<Pref>,
+pub struct Values {
+    pub ints: BTreeMap<u64, u64>,
+    pub disable_active_migration: bool,
+    pub cids: BTreeMap<u64, Vec<u8>>,
+    pub token: Option<Vec<u8>>,
+    pub pref: Option<Pref>,
 }
 
 impl Values {
-    fn int(&self, id: u64) -> u64 {
+    pub fn int(&self, id: u64) -> u64 {
         self.ints[&id]
     }
 }
 
 #[derive(Clone, Debug)]
-struct Why {
-    param: &'static str,
+pub struct Why {
+    pub param: &'static str,
     /// short class used in the Fail key
-    class: String,
-    detail: String,
+    pub class: String,
+    pub detail: String,
 }
 
 #[derive(Debug, Default)]
-struct Judgement {
+pub struct Judgement {
     /// reasons for which RFC 9000 requires the block to be refused
-    rejects: Vec<Why>,
+    pub rejects: Vec<Why>,
     /// reasons for which either outcome is permitted
-    latitude: Vec<Why>,
-    values: Values,
-    known_params: usize,
-    unknown_params: usize,
-    dup_known: bool,
-    dup_unknown: bool,
-    role_violation: bool,
-    wrong_length: bool,
-    near_bound: bool,
-    nonminimal_value: bool,
-    malformed_block: bool,
+    pub latitude: Vec<Why>,
+    pub values: Values,
+    pub known_params: usize,
+    pub unknown_params: usize,
+    pub dup_known: bool,
+    pub dup_unknown: bool,
+    pub role_violation: bool,
+    pub wrong_length: bool,
+    pub near_bound: bool,
+    pub nonminimal_value: bool,
+    pub malformed_block: bool,
 }
 
 fn why(param: &'static str, class: impl Into<String>, detail: impl Into<String>) -> Why {
@@ -306,7 +306,7 @@ fn parse_pref(b: &[u8]) -> Result<Pref, &'static str> {
     })
 }
 
-fn bounds_of(kind: Kind) -> Vec<u64> {
+pub fn bounds_of(kind: Kind) -> Vec<u64> {
     match kind {
         Kind::Int { min, max, latitude_above } => {
             let mut v = vec![];
@@ -324,7 +324,7 @@ fn bounds_of(kind: Kind) -> Vec<u64> {
 }
 
 /// `accept(block, role)` and `value(block)` in one pass. `role` is the SENDER of the block.
-fn judge(block: &[u8], role: Role) -> Judgement {
+pub fn judge(block: &[u8], role: Role) -> Judgement {
     let mut j = Judgement::default();
     for r in TABLE {
         if let Kind::Int { .. } = r.kind {
@@ -513,7 +513,7 @@ pub struct Block {
     pub cut: Option<u16>,
 }
 
-fn body_bytes(b: &Body) -> Vec<u8> {
+pub fn body_bytes(b: &Body) -> Vec<u8> {
     match b {
         Body::Int { v, w } => {
             let v = (*v).min(VMAX);
@@ -525,7 +525,7 @@ fn body_bytes(b: &Body) -> Vec<u8> {
     }
 }
 
-fn encode_param(out: &mut Vec<u8>, p: &Param) {
+pub fn encode_param(out: &mut Vec<u8>, p: &Param) {
     let id = p.id.min(VMAX);
     put_varint(out, id, p.id_w.width_for(id));
     let body = body_bytes(&p.body);
@@ -533,7 +533,7 @@ fn encode_param(out: &mut Vec<u8>, p: &Param) {
     out.extend_from_slice(&body);
 }
 
-fn materialize(b: &Block) -> Vec<Param> {
+pub fn materialize(b: &Block) -> Vec<Param> {
     let mut ps = b.params.clone();
     if !b.params.is_empty() {
         for d in &b.dups {
@@ -548,7 +548,7 @@ fn materialize(b: &Block) -> Vec<Param> {
     ps
 }
 
-fn encode_block(b: &Block) -> Vec<u8> {
+pub fn encode_block(b: &Block) -> Vec<u8> {
     let ps = materialize(b);
     let mut out = vec![];
     for p in &ps {
@@ -603,7 +603,7 @@ fn s2n_decode(bytes: &[u8], role: Role) -> Result<Decoded, String> {
     }
 }
 
-fn hex(b: &[u8]) -> String {
+pub fn hex(b: &[u8]) -> String {
     b.iter().map(|x| format!("{x:02x}")).collect()
 }
 
@@ -730,12 +730,7 @@ pub fn check_bytes(bytes: &[u8], role: Role, obs: &mut Obs) -> CaseResult {
     if let Some(w) = j.rejects.first() {
         obs.class("rfc-rejects");
         if got.is_ok() {
-            let key = if w.class.starts_with('=') || w.class.starts_with(':') {
-                format!("C14:{}{}:accepted", w.param, w.class)
-            } else {
-                format!("C14:{}:{}:accepted", w.param, w.class)
-            };
-            return Err(Fail::new(key, format!("{ctx}: RFC 9000 requires refusal ({}), s2n accepted it", w.detail)));
+            return Err(Fail::new(accepted_key(w), format!("{ctx}: RFC 9000 requires refusal ({}), s2n accepted it", w.detail)));
         }
         return Ok(());
     }
@@ -757,24 +752,39 @@ pub fn check_bytes(bytes: &[u8], role: Role, obs: &mut Obs) -> CaseResult {
                 return Ok(());
             }
             obs.class("rfc-accepts");
-            // which parameter does s2n refuse? (first one refused on its own)
-            let params = ref_parse(bytes).expect("harness: judged acceptable but does not parse");
-            for (id, body) in &params {
-                let one = single_tlv(*id, body);
-                if let Err(e1) = s2n_decode(&one, role) {
-                    let (name, class) = shape_class(*id, body);
-                    return Err(Fail::new(
-                        format!("C14:{name}:{class}:rejected"),
-                        format!("{ctx}: every parameter is permitted by RFC 9000, s2n refused it ({e}); parameter {id:#x} alone ({}) is refused too ({e1})", hex(&one)),
-                    ));
-                }
-            }
-            Err(Fail::new(
-                "C14:block:combination:rejected",
-                format!("{ctx}: every parameter is permitted by RFC 9000 and accepted on its own, s2n refused the block ({e})"),
-            ))
+            let (key, which) = rejected_key(bytes, role);
+            Err(Fail::new(key, format!("{ctx}: every parameter is permitted by RFC 9000, s2n refused it ({e}); {which}")))
         }
     }
+}
+
+/// Fail key for "RFC 9000 requires refusal for this reason, s2n accepted the block"
+pub fn accepted_key(w: &Why) -> String {
+    if w.class.starts_with('=') || w.class.starts_with(':') {
+        format!("C14:{}{}:accepted", w.param, w.class)
+    } else {
+        format!("C14:{}:{}:accepted", w.param, w.class)
+    }
+}
+
+/// Fail key (and a description) for "every parameter of this well-formed block is permitted, s2n's
+/// decoder refuses it": names the first parameter that is refused on its own. Used as a *label*
+/// only (the verdict comes from `judge`); also by the end-to-end half (world::mon_c14).
+pub fn rejected_key(bytes: &[u8], role: Role) -> (String, String) {
+    let params = ref_parse(bytes).expect("harness: judged acceptable but does not parse");
+    for (id, body) in &params {
+        let one = single_tlv(*id, body);
+        if let Err(e1) = s2n_decode(&one, role) {
+            let (name, class) = shape_class(*id, body);
+            return (format!("C14:{name}:{class}:rejected"), format!("parameter {id:#x} alone ({}) is refused too ({e1})", hex(&one)));
+        }
+    }
+    ("C14:block:combination:rejected".to_string(), "every parameter is accepted on its own".to_string())
+}
+
+/// does s2n's decoder (the one the receiver of a block sent by `role` uses) take the block?
+pub fn s2n_decodes(bytes: &[u8], role: Role) -> bool {
+    s2n_decode(bytes, role).is_ok()
 }
 
 pub fn check_block(b: &Block, obs: &mut Obs) -> CaseResult {
@@ -798,11 +808,11 @@ fn prf_body(seed: u32, len: usize) -> Vec<u8> {
     prf_vec(KEY, (seed as u64) << 8, len)
 }
 
-fn w_any() -> impl Strategy<Value = W> {
+pub fn w_any() -> impl Strategy<Value = W> {
     prop_oneof![Just(W::Min), Just(W::B1), Just(W::B2), Just(W::B4), Just(W::B8)]
 }
 
-fn w_mostly_min() -> impl Strategy<Value = W> {
+pub fn w_mostly_min() -> impl Strategy<Value = W> {
     prop_oneof![30 => Just(W::Min), 1 => Just(W::B2), 1 => prop_oneof![Just(W::B1), Just(W::B4), Just(W::B8)]]
 }
 
@@ -843,7 +853,7 @@ fn cid_body(latitude_below: usize) -> BoxedStrategy<Vec<u8>> {
     (len, any::<u32>()).prop_map(|(l, s)| prf_body(s, l)).boxed()
 }
 
-fn pref_body() -> BoxedStrategy<Vec<u8>> {
+pub fn pref_body() -> BoxedStrategy<Vec<u8>> {
     // address family: 0 = all-zero, 1 = zero ip with a port, 2 = ordinary
     let fam = || prop_oneof![2 => Just(0u8), 1 => Just(1u8), 6 => Just(2u8)];
     let cid_len = prop_oneof![
@@ -949,7 +959,7 @@ fn unknown_id() -> BoxedStrategy<u64> {
     .boxed()
 }
 
-fn unknown_param() -> BoxedStrategy<Param> {
+pub fn unknown_param() -> BoxedStrategy<Param> {
     let len = prop_oneof![2 => Just(0usize), 2 => 1usize..=8, 2 => 0usize..=64, 1 => Just(64usize)];
     (unknown_id(), len, any::<u32>(), w_mostly_min(), w_mostly_min())
         .prop_map(|(id, l, s, id_w, len_w)| Param { id, id_w, len_w, body: Body::Raw(prf_body(s, l)) })
@@ -965,7 +975,7 @@ fn alt_body() -> BoxedStrategy<Option<Body>> {
     .boxed()
 }
 
-fn block_for(role: Role) -> BoxedStrategy<Block> {
+pub fn block_for(role: Role) -> BoxedStrategy<Block> {
     let slots: Vec<BoxedStrategy<Option<Param>>> = TABLE.iter().map(|r| known_slot(r, role)).collect();
     let unknown = prop_oneof![
         5 => Just(vec![]).boxed(),
